@@ -20,12 +20,40 @@ fn leaky_doc(rng: &mut Rng) -> String {
     }
 }
 
+/// related documents, as an editor preview or a streaming consumer produces them: growing prefixes of one text
+/// (cut at random character boundaries and between the CR and the LF of every CRLF), then the text with one
+/// character replaced, then a shrinking prefix - any state keyed on "the previous document" shows here
+fn related_docs(rng: &mut Rng) -> Vec<String> {
+    let mut base = if rng.chance(1, 2) { doc::any_doc(rng) } else { leaky_doc(rng) };
+    if rng.chance(1, 2) { base = base.replace('\n', "\r\n"); }
+    if rng.chance(1, 4) { base = base.replace('\n', "\r"); }
+    let bounds: Vec<usize> = (0..=base.len()).filter(|&i| base.is_char_boundary(i)).collect();
+    let mut cuts: Vec<usize> = (0..rng.range(1, 5)).map(|_| bounds[rng.below(bounds.len())]).collect();
+    let crlf: Vec<usize> = base.match_indices("\r\n").map(|(i, _)| i + 1).collect();
+    if !crlf.is_empty() { for _ in 0..rng.range(1, 3) { cuts.push(crlf[rng.below(crlf.len())]); } }
+    let crs: Vec<usize> = base.match_indices('\r').map(|(i, _)| i + 1).collect();
+    if !crs.is_empty() { cuts.push(crs[rng.below(crs.len())]); }
+    cuts.sort(); cuts.dedup();
+    let mut docs: Vec<String> = cuts.iter().map(|&c| base[..c].to_string()).collect();
+    docs.push(base.clone());
+    if bounds.len() > 2 {
+        let i = rng.below(bounds.len() - 1);
+        let mut edited = String::new();
+        edited.push_str(&base[..bounds[i]]);
+        edited.push(['x', '\n', '*', '`', '[', ' '][rng.below(6)]);
+        edited.push_str(&base[bounds[i + 1]..]);
+        docs.push(edited);
+    }
+    if let Some(&c) = cuts.first() { docs.push(base[..c].to_string()); }
+    docs
+}
+
 pub fn run(n: usize, rng: &mut Rng, rep: &mut Report) {
     let mut hists: Vec<(cfg::Cfg, Vec<String>)> = vec![];
     for _ in 0..n {
         let c = cfg::sample(rng, false, true);
         let k = rng.range(2, 8);
-        let mut docs: Vec<String> = (0..k).map(|_| leaky_doc(rng)).collect();
+        let mut docs: Vec<String> = if rng.chance(1, 3) { related_docs(rng) } else { (0..k).map(|_| leaky_doc(rng)).collect() };
         if rng.chance(1, 2) { let i = rng.below(docs.len()); let d = docs[i].clone(); docs.push(d); }
         hists.push((c, docs));
     }
